@@ -3,37 +3,40 @@ from vlib.props import prop
 # counters are the ctx.count names of harness/c16_scatter.cxx; minima are about 35-50% of what one quick run observes
 _min_obs_quick = {
     # "pairs" cases (1/3 of the cases)
-    "detector_pairs_checked": 150000, "symmetry_checks": 150000, "symmetry_checks_per_scatter_point": 5000000,
-    "cache_comparisons": 150000, "linearity_checks": 150000, "zero_activity_checks": 150000,
-    "cache_reads_seen": 10000000, "cache_writes_seen": 1000000,     # STIR's SCAT_CACHE call-outs: the cached path was really taken
-    "cfg_cache_on": 500, "cfg_cache_off": 150,
-    "cfg_cylindrical": 400, "cfg_blocks_on_cylindrical": 100, "cfg_downsampled_scanner": 100,
+    "detector_pairs_checked": 250000, "symmetry_checks": 250000, "symmetry_checks_per_scatter_point": 10000000,
+    "cache_comparisons": 250000, "linearity_checks": 250000, "zero_activity_checks": 250000,
+    "cache_reads_seen": 15000000, "cache_writes_seen": 2000000,     # STIR's SCAT_CACHE call-outs: the cached path was really taken
+    "cfg_cache_on": 1000, "cfg_cache_off": 300,
+    "cfg_cylindrical": 800, "cfg_blocks_on_cylindrical": 200, "cfg_downsampled_scanner": 200,
     # "history" cases (2/3 of the cases)
-    "histories": 2000, "history_steps": 15000, "history_checkpoints": 8000,
-    "fresh_object_comparisons": 16000, "fresh_random_order_comparisons": 8000, "bins_compared_with_fresh_object": 1500000,
-    "steps_new_activity_image": 2000, "steps_new_attenuation_image": 1000, "steps_new_scatter_point_image": 1000,
-    "steps_new_threshold_and_scatter_point_image_again": 1000, "steps_new_template": 2000, "steps_new_energy_window": 2000,
-    "steps_cache_switch": 1000, "steps_same_value_again": 1000, "steps_rerun_without_change": 1000,
-    "states:energy-window-changed-after-process_data-with-same-template": 1000,
-    "process_data_again_without_set_up": 100, "set_up_twice_in_a_row": 1000,
-    "setter:set_exam_info_sptr": 2000, "setter:set_cache_enabled": 2000, "setter:downsample_scanner": 2000,
+    "histories": 3500, "history_steps": 30000, "history_checkpoints": 20000,
+    "fresh_object_comparisons": 40000, "fresh_random_order_comparisons": 20000, "bins_compared_with_fresh_object": 4000000,
+    "steps_new_activity_image": 5000, "steps_new_attenuation_image": 2500, "steps_new_scatter_point_image": 2500,
+    "steps_new_threshold_and_scatter_point_image_again": 2500, "steps_new_template": 5000, "steps_new_energy_window": 5000,
+    "steps_cache_switch": 2500, "steps_same_value_again": 2500, "steps_rerun_without_change": 2500,
+    # the state in which the defect repaired by 'fix: ScatterSimulation::set_up must recompute the 511 keV detection efficiency' shows
+    "states:energy-window-changed-after-process_data-with-same-template": 5000,
+    "process_data_again_without_set_up": 500, "set_up_twice_in_a_row": 2500,
+    "setter:set_exam_info_sptr": 10000, "setter:set_cache_enabled": 10000, "setter:downsample_scanner": 8000,
 }
 
 prop("C16",
      harness="c16_scatter",
      runs={
          "quick": [dict(flavour="asan", cases=300), dict(flavour="rel", cases=6000)],
-         "thorough": [dict(flavour="asan", cases=1200), dict(flavour="rel", cases=36000)],
+         # thorough cases are 3-4x as expensive as quick ones (larger scanners and images); sized for about 30 min on 6 shards
+         "thorough": [dict(flavour="asan", cases=400), dict(flavour="rel", cases=12000)],
      },
-     min_nontrivial={"quick": 3000, "thorough": 15000},
+     min_nontrivial={"quick": 4500, "thorough": 9000},
      min_obs={"quick": _min_obs_quick,
-              "thorough": {k: 4 * v for k, v in _min_obs_quick.items()}},
+              "thorough": {k: 2 * v for k, v in _min_obs_quick.items()}},
      rule=("case = (idx % 3 == 0) one 'pairs' configuration or (otherwise) one setter history, both on a generated world: "
-           "cylindrical or BlocksOnCylindrical scanner with 8..16 (thorough: ..26) detectors per ring and 2..3 (..4) rings, optionally "
+           "cylindrical or BlocksOnCylindrical scanner with 8..18 (thorough: ..28) detectors per ring and 2..3 (..4) rings, optionally "
            "obtained from a larger one through downsample_scanner(); span-1 non-arc-corrected template with random maximum ring "
-           "difference and tangential range (30%: all detector pairs); energy resolution 8..35% at 511 keV or another reference "
-           "energy, window [300..500, 520..750] keV; activity / attenuation / scatter-point images on independent grids of 2..4 planes "
-           "x 3..5 (..8) voxels with random content and zeros (the scatter-point image is the attenuation image in 35%); attenuation "
+           "difference and tangential range (cylindrical, 30%: all detector pairs; blocks: at most ndet/2+1 positions so that no bin "
+           "joins two crystals of one block); energy resolution 8..35% at 511 keV or another reference "
+           "energy, window [300..500, 520..750] keV; activity / attenuation / scatter-point images on independent grids of 2..4 (..5) planes "
+           "x 3..6 (..9) voxels with random content and zeros (the scatter-point image is the attenuation image in 35%); attenuation "
            "threshold from {0, .004, .01, .02, .04, .07, .1}; cache on (75%) or off.  pairs: every bin of the template -> both "
            "detector orders through actual_scatter_estimate and through simulate_for_one_scatter_point per scatter point, stored "
            "process_data value == per-pair function, values finite and >= 0, a fresh object with the other cache setting gives "
